@@ -265,9 +265,12 @@ def generate(repo):
         d1 = ast.unparse(one(assigns(afn, 'damp1'), 'damp1'))
         d2 = ast.unparse(one(assigns(afn, 'damp2'), 'damp2'))
         m1 = re.fullmatch(r'float\(min\((\w+), l\)\)', d1)
-        m2 = re.fullmatch(r'float\(min\((\w+), l\)\)', d2)
+        # damp2: `float(min(maxgood, l))` (0.0 when only pixel 0 is good: NaN) or, with
+        # fixes/C11-damp-only-first-pixel-good.diff, `float(max(min(maxgood, l), 1))`
+        m2 = re.fullmatch(r'float\(min\((\w+), l\)\)', d2) or re.fullmatch(r'float\(max\(min\((\w+), l\), (\d+)\)\)', d2)
         if not (m1 and m2 and m1.group(1) == 'mingood' and m2.group(1) in ('maxgood',)):
             raise Unrecognised('damp1/damp2: %s ; %s' % (d1, d2))
+        damp2_floor = int(m2.group(2)) if m2.re.groups == 2 else 0
         tap = [ast.unparse(n.value) for n in ast.walk(afn) if isinstance(n, ast.AugAssign) and ast.unparse(n.target) == 'newflux']
         if tap != ['0.5 * (1.0 + erf((pixels - mingood) / damp1))', '0.5 * (1.0 + erf((maxgood - pixels) / damp2))']:
             raise Unrecognised('tapers %s' % tap)
@@ -332,19 +335,20 @@ Definition c1f_iterfit_upper : Q := %(it_upper)s.                         (* def
 Definition c1f_iterfit_lower : Q := %(it_lower)s.
 Definition c1f_iterfit_maxiter : nat := %(it_maxiter)d%%nat.
 Definition c1f_damp_len : nat := %(damp_len)d%%nat.                       (* aesthetics(): l, damp1 = min(mingood, l), damp2 = min(maxgood, l) *)
+Definition c1f_damp2_floor : nat := %(damp2_floor)d%%nat.                 (* damp2 = max(min(maxgood, l), floor); 0 = no max() in the source *)
 Definition c1f_taper1_on (mingood : nat) : bool := (0 <? mingood)%%nat.              (* if mingood > 0 *)
 Definition c1f_taper2_on (maxgood nflux : nat) : bool := (maxgood <? nflux - 1)%%nat.  (* if maxgood < nflux - 1 *)
 (* preprocess_spectra: combine1fiber(rowloglam - logshift[iobj], ..., binsz=fullloglam[1]-fullloglam[0]) *)
 Definition pp_shift (L s : Q) : Q := %(pp_shift)s.
 ''' % {'nogood': nogood, 'inbetween': inbetween, 'med_width': med_width, 'requiren': requiren,
        'it_upper': qlit(it_defaults['upper']), 'it_lower': qlit(it_defaults['lower']), 'it_maxiter': it_defaults['maxiter'],
-       'damp_len': dl_.value, 'pp_shift': pp_shift,'eps': qlit(EPS), 'eps_src': eps, 'nord': nord, 'maxsep': qlit(maxsep_f), 'bkpt': qlit(bkpt_f),
+       'damp_len': dl_.value, 'damp2_floor': damp2_floor, 'pp_shift': pp_shift,'eps': qlit(EPS), 'eps_src': eps, 'nord': nord, 'maxsep': qlit(maxsep_f), 'bkpt': qlit(bkpt_f),
        'pad_lo': qlit(pad_lo), 'pad_hi': qlit(pad_hi), 'gap': cmps['ig1'], 'slice_extra': slice_extra,
        'min_group': min_group, 'inside': inside, 'smask': smask, 'width': width, 'bad': badt, 'glo': glo, 'ghi': ghi}
     info.update({'recognised': True, 'EPS': str(EPS), 'nord': nord, 'maxsep_factor': str(maxsep_f), 'bkptbin_factor': str(bkpt_f),
                  'gap': cmps['ig1'], 'min_group': min_group, 'slice_extra': slice_extra, 'grow': [glo, ghi], 'smooth_width': width,
                  'round5': {'no_good': nogood, 'inbetween': inbetween, 'median_width': med_width, 'requiren': requiren,
-                            'iterfit_defaults': it_defaults, 'damp_len': dl_.value, 'pp_shift': pp_shift}})
+                            'iterfit_defaults': it_defaults, 'damp_len': dl_.value, 'damp2_floor': damp2_floor, 'pp_shift': pp_shift}})
     return text, info
 
 
